@@ -565,6 +565,7 @@ func runC19(c *vx.Ctx) {
 	if c.Wants("race") {
 		c19Race(c, at(56*time.Second, 13*time.Minute+30*time.Second))
 	}
+	c19MapOrder(c)
 }
 
 func c19Sections(c *vx.Ctx, w *core.VerifC19World, part, universe string, depth int, stopAt time.Time) {
@@ -847,6 +848,17 @@ func (x *c19Explorer) recheck(n c19Node, key string) string {
 }
 
 func replayC19(c *vx.Ctx, v vx.Violation) string {
+	if v.Part == "map-order" {
+		return c19MapReplay(v)
+	}
+	if strings.HasPrefix(v.Part, "draw-") && mapIterAvail {
+		var i int
+		fmt.Sscanf(v.Part, "draw-%d", &i)
+		if i >= 0 && i < len(mapOrderDraws) {
+			setMapIter(true, mapOrderDraws[i])
+			defer setMapIter(false, 0)
+		}
+	}
 	raw, _ := jsonMarshal(v.Replay)
 	var r c19Replay
 	if err := jsonUnmarshal(raw, &r); err != nil {
